@@ -17,9 +17,6 @@ namespace YashModel.Job
 
 /-! ### job-ID operands -/
 
-theorem digit_not_special (c : Char) (h : isDigitC c = true) : c ≠ '%' ∧ c ≠ '+' ∧ c ≠ '-' ∧ c ≠ '?' := by
-  refine ⟨?_, ?_, ?_, ?_⟩ <;> (intro e; subst e; revert h; decide)
-
 /-- ★ the operand forms of the documentation: `%`, `%%`, `%+` parse to the current job, `%-` to the
     previous job, `%n` (decimal digits, `1 ≤ n < 2^64`) to job number `n` -/
 theorem parse_designators :
@@ -150,30 +147,6 @@ theorem jobs_lists_current_and_previous (s : JobList) (h : Inv s) :
     exact ⟨p, h1, (mem_matchingIdx _ _ 0 p).mpr ⟨Nat.zero_le _, j, h2, rfl⟩⟩
 
 /-! ### `jobs` removes exactly the finished jobs it reported -/
-
-theorem jobsFinish1_gets (s : JobList) (i k : Nat) :
-    gets (jobsFinish1 s i).entries k =
-      if k = i then
-        (match gets s.entries i with
-         | none => none
-         | some j => if j.state.isAlive then some { j with changed := false } else none)
-      else gets s.entries k := by
-  unfold jobsFinish1
-  cases hg : gets s.entries i with
-  | none =>
-    simp only
-    by_cases hk : k = i
-    · subst hk; simp [hg]
-    · simp [hk]
-  | some j =>
-    simp only
-    cases ha : j.state.isAlive with
-    | true =>
-      simp only [if_true]
-      exact gets_set _ _ _ _ (gets_some_lt hg)
-    | false =>
-      simp only [Bool.false_eq_true, if_false]
-      rw [remove_gets]
 
 /-- ★ after `jobs` has reported the jobs `idxs`, slot by slot: a reported job that had finished is
     gone, a reported job that is alive only has its `state_changed` flag cleared, every other slot
